@@ -549,4 +549,56 @@ def effectEmitsStatement : CExprKind → Bool
   | .goStmt => true
   | _ => false
 
+/-! ### inherent method lookup with overlapping impls (`env.rs::TraitEnv::lookup_inherent_method`,
+`typer/check.rs`: callee `EField` = dot form, `infer_static_member_call_expr` = path form) -/
+
+/-- the inherent impl table: `InherentImplKey::Exact(ty)` rows (impls of one concrete type, among
+them impls of single instantiations `impl Cell[int32]`) and `InherentImplKey::Constr(base)` rows
+(generic impls `impl[T] Cell[T]`), each with its method names.  Types are compared by their
+compact text, which is also what names the compiled function. -/
+structure InhEnv where
+  exact : List (Ty × List Name)
+  constr : List (Name × List Name)
+
+/-- which impl block provides the method -/
+inductive InhFound where
+  | exact (tyText : Name)
+  | constr (base : Name)
+  deriving Repr, DecidableEq
+
+/-- `lookup_inherent_method`: the impl of exactly the receiver type first, the generic impl of its
+constructor as the fallback -/
+def lookupInherentMethod (E : InhEnv) (recv : Ty) (m : Name) : Option InhFound :=
+  if E.exact.any (fun r => tyCompact r.1 == tyCompact recv && r.2.contains m) then some (.exact (tyCompact recv))
+  else match constrName recv with
+    | some b => if E.constr.any (fun r => r.1 == b && r.2.contains m) then some (.constr b) else none
+    | none => none
+
+def isApp : Ty → Bool
+  | .tapp _ _ => true
+  | _ => false
+
+/-- `TraitEnv::instantiation_impl_defines` -/
+def instantiationImplDefines (E : InhEnv) (base m : Name) : Bool :=
+  E.exact.any fun r => isApp r.1 && constrName r.1 == some base && r.2.contains m
+
+/-- dot form `x.m(..)`: looked up under the receiver's type -/
+def dotFormLookup (E : InhEnv) (recvTy : Ty) (m : Name) : Option InhFound := lookupInherentMethod E recvTy m
+
+/-- path form `Base::m(x, ..)`: under the bare constructor type, unless an impl of a single
+instantiation of `Base` defines `m` and the first argument is a `Base[..]`: then under that
+argument's type (the behaviour since fix db8e8d9; before, always the bare lookup) -/
+def pathFormLookup (E : InhEnv) (base : Name) (firstArgTy : Option Ty) (m : Name) : Option InhFound :=
+  let bare := lookupInherentMethod E (.tstruct base) m
+  if instantiationImplDefines E base m then
+    match firstArgTy with
+    | some t =>
+      if constrName t == some base then
+        match lookupInherentMethod E t m with
+        | some f => some f
+        | none => bare
+      else bare
+    | none => bare
+  else bare
+
 end Goml.Mangle
